@@ -242,6 +242,9 @@ type c12Runner struct {
 	compCI   map[string]int  // current content index per composition
 	compUID  map[string]int
 	calls    []int // API calls issued per event (rec / fetch)
+	// controller objects live as long as the process: they are kept across events and
+	// re-created only after a crash, so that state cached inside them is exercised
+	fetcher *composite.APIRevisionFetcher
 }
 
 func (r *c12Runner) mon(sig, why string) {
@@ -497,7 +500,15 @@ func (r *c12Runner) fetch(e c12Ev, where string) string {
 	before := r.st.Peek(c12XRGVK.GroupKind(), "", e.XR)
 	r.st.Revive()
 	r.st.Plan = c12PlanFn(e.Plan)
-	f := composite.NewAPIRevisionFetcher(resource.ClientApplicator{Client: r.st, Applicator: resource.NewAPIPatchingApplicator(r.st)})
+	if r.fetcher == nil {
+		r.fetcher = composite.NewAPIRevisionFetcher(resource.ClientApplicator{Client: r.st, Applicator: resource.NewAPIPatchingApplicator(r.st)})
+	}
+	f := r.fetcher
+	defer func() {
+		if r.st.Crashed() {
+			r.fetcher = nil // process restart
+		}
+	}()
 	var rev *v1.CompositionRevision
 	var err error
 	if p := Guard(func() {
